@@ -58,7 +58,9 @@ def opRun (j : Json) : R Json := do
                              ("chain_ok", jb chainOk), ("file_ok", jb fileOk), ("lo", ji lo), ("single_sn", jb singleSN),
                              ("ok", jb (linear && chainOk && fileOk)),
                              ("roles", jl (fun v => Json.arr #[js v, js (if ch.aps.contains v || comp.length == 1 then "orange" else "blue")]) comp)]])
-  let (_, res) := impl.foldl step (0, [])
+  -- "big": only the model is evaluated (the definition-level specification is cubic in the size of a component)
+  let big := (bool j "big").toOption.getD false
+  let (_, res) := if big then ((0 : Int), ([] : List Json)) else impl.foldl step (0, [])
   let modelJ := match model with
     | .ok (ws, next) => obj [("written", jl (fun (w : Written) => obj [("name", js w.name),
           ("tags", jl (fun (x : V × Int × Int) => Json.arr #[js x.1, ji x.2.1, ji x.2.2]) (w.tags.mergeSort (fun a b => decide (a.1 ≤ b.1))))]) ws), ("next", ji next)]
